@@ -142,6 +142,11 @@ def wrap(data, mode, pem=False):
         return bytearray(data)
     if mode == 2:
         return memoryview(data)
+    if mode == 3:
+        return memoryview(bytearray(data))      # writable view
+    if mode == 4:
+        import array
+        return array.array("B", data)
     return data
 
 
@@ -275,7 +280,8 @@ def run_unit(ctx, name, **kw):
         eps = entry_points(cname)
         seen = set()
         for ep_name, seed in seeds_for(cname)[kw["group"]]:
-            probe(ctx, cname, ep_name, eps[ep_name], seed, valid=True)
+            for md in range(5):
+                probe(ctx, cname, ep_name, eps[ep_name], seed, mode=md, valid=True)
             big = len(seed) > 120
             muts = itertools.chain(
                 gen.mutations(seed, full_subst=kw["full"] and not big,
@@ -288,7 +294,7 @@ def run_unit(ctx, name, **kw):
                 seen.add((ep_name, m))
                 i += 1
                 ctx.event("mut:" + kind)
-                probe(ctx, cname, ep_name, eps[ep_name], m, mode=i % 3, kindhint=kind)
+                probe(ctx, cname, ep_name, eps[ep_name], m, mode=i % 5, kindhint=kind)
             ctx.sample({"curve": cname, "entry": ep_name, "seed": seed.hex()[:80], "mutants": i})
     elif name == "pem":
         cname = kw["curve"]
